@@ -6,8 +6,25 @@ from . import common, projrun
 
 FAKE_NINJA = """#!/bin/dash
 printf 'N:%s\\n' "$*" >> "$SPAWNLOG"
-if [ "${FAKE_NINJA_RC:-0}" = kill ]; then kill -KILL $$; fi
-exit ${FAKE_NINJA_RC:-0}
+# "build" the targets as ninja would: every target file is created, except the last one when the scripted verdict is a failure
+# (a real ninja with -k N leaves the outputs of the edges that succeeded). laze must not look at them.
+rc=${FAKE_NINJA_RC:-0}
+n=0; skip=0
+for a in "$@"; do
+  if [ $skip = 1 ]; then skip=0; continue; fi
+  case "$a" in -f|-j|-k|-t) skip=1;; -*) ;; */*) n=$((n+1));; esac
+done
+i=0; skip=0
+for a in "$@"; do
+  if [ $skip = 1 ]; then skip=0; continue; fi
+  case "$a" in
+    -f|-j|-k|-t) skip=1;;
+    -*) ;;
+    */*) i=$((i+1)); if [ "$rc" = 0 ] || [ $i -lt $n ]; then mkdir -p "$(dirname "$a")" && : > "$a"; fi;;
+  esac
+done
+if [ "$rc" = kill ]; then kill -KILL $$; fi
+exit $rc
 """
 # logs cwd, selected exported variables and argv; fails when the command text contains FAILME
 FAKE_SH = """#!/bin/dash
@@ -47,7 +64,8 @@ class Scenario:
     def close(self):
         shutil.rmtree(self.d, ignore_errors=True)
 
-    def invoke(self, inv, extra_env=None, timeout=30):
+    def invoke(self, inv, extra_env=None, timeout=240):
+        # histories: a killed-and-repeated run would be an event of its own, so no retry here but a timeout that a loaded machine does not reach
         """inv: dict(args, flags, task, task_args, ninja_rc, subcommand, no_ninja, cwd)"""
         if os.path.exists(self.log):
             os.remove(self.log)
@@ -79,7 +97,7 @@ class Scenario:
             if inv.get("task"):
                 task = [inv["task"]] + list(inv.get("task_args") or [])
             r = projrun.run_laze(self.d, args, extra_env=env, generate_only=bool(fl.get("generate_only")),
-                                 more=tuple(pre_flags(pre) + more), task=task, timeout=timeout)
+                                 more=tuple(pre_flags(pre) + more), task=task, timeout=timeout, retry=False)
         r["dump"] = projrun.read_dump(self.d)
         r["spawns"] = open(self.log).read().splitlines() if os.path.exists(self.log) else []
         r["cache_hit"] = "laze: reading cache took" in r["stdout"]
